@@ -156,13 +156,13 @@ def spec(self, dom, cod, boxes, offsets, layers=None):
 ''', params=_p_diagram_init_fast)
 
 contract('monoidal.Id.__init__', is_init=True, property_ids=('C01', 'C02'), spec='''
-def spec(self, dom):
+def spec(self, dom=EmptyTy()):
     self._dom = dom
     self._cod = dom
     self._boxes = []
     self._offsets = ()
     self._layers = RawArrow(dom, dom, [])
-''', params=lambda ex: ([VObject('monoidal.Id'), ex.sym_ty('dom')], {}))
+''', params=lambda ex: ([VObject('monoidal.Id')] + ([ex.sym_ty('dom')] if ex.fork(2) == 0 else []), {}))
 
 
 # ---------------------------------------------------------------- monoidal.Diagram.then / tensor
